@@ -128,6 +128,12 @@ func runC03(ctx *core.Ctx, idx int) *core.Result {
 		siteCensus(ctx, idx, res, g)
 		return res
 	}
+	if idx%250 == 9 {
+		// 'for ... {' on the '+' side, once or several times for one loop of the '-' side (loop fission): every loop of
+		// the replacement has its own body (the patterns of C04's loop table, judged as instantiations)
+		forDotsCaseFor(ctx, idx/250, res, "C03")
+		return res
+	}
 	if idx%25 == 3 {
 		// list patterns in which a metavariable bound early is used again behind sections that do not mention it, with
 		// a second repeated metavariable whose name sorts before or after it: every site is rewritten with the bindings
